@@ -1,6 +1,166 @@
-// Contract harnesses for ntp-proto/src/algorithm/mod.rs (child module: sees private items).
-#![allow(unused_imports)]
+// Contract harnesses for ntp-proto/src/algorithm/mod.rs (C05: on-wire formulas in the wrappers).
+// Compiled in the transformed copy (tokio mpsc channel -> FIFO queue shim, see transforms.json).
+#![cfg(feature = "verif-xrepo")] // type-checks only against the transformed text (channel shim)
+#![allow(unused_imports, dead_code)]
 use super::*;
+use std::sync::atomic::{AtomicBool, AtomicI64, AtomicU64, AtomicU8, Ordering::Relaxed};
+
+static CALLS: AtomicU8 = AtomicU8::new(0);
+static OFFSET: AtomicI64 = AtomicI64::new(0);
+static DELAY: AtomicI64 = AtomicI64::new(0);
+static LOCALTIME: AtomicU64 = AtomicU64::new(0);
+
+fn raw(d: NtpDuration) -> i64 {
+    i64::from_be_bytes((NtpTimestamp::from_bits([0; 8]) + d).to_bits())
+}
+fn ts(v: u64) -> NtpTimestamp {
+    NtpTimestamp::from_bits(v.to_be_bytes())
+}
+fn clamp(v: i128) -> i64 {
+    if v > i64::MAX as i128 {
+        i64::MAX
+    } else if v < i64::MIN as i128 {
+        i64::MIN
+    } else {
+        v as i64
+    }
+}
+
+/// recording inner controller: stores what the wrapper hands to the clock filter
+struct RecTwoWay;
+impl InternalSourceController for RecTwoWay {
+    type ControllerMessage = ();
+    type SourceMessage = ();
+    type MeasurementDelay = NtpDuration;
+    fn handle_message(&mut self, _m: ()) {}
+    fn handle_measurement(&mut self, m: InternalMeasurement<NtpDuration>) -> Option<()> {
+        CALLS.store(CALLS.load(Relaxed).saturating_add(1), Relaxed);
+        OFFSET.store(raw(m.offset), Relaxed);
+        DELAY.store(raw(m.delay), Relaxed);
+        LOCALTIME.store(u64::from_be_bytes(m.localtime.to_bits()), Relaxed);
+        None
+    }
+    fn desired_poll_interval(&self) -> PollInterval {
+        PollInterval::default()
+    }
+    fn observe(&self) -> ObservableSourceTimedata {
+        ObservableSourceTimedata::default()
+    }
+}
+struct RecOneWay;
+impl InternalSourceController for RecOneWay {
+    type ControllerMessage = ();
+    type SourceMessage = ();
+    type MeasurementDelay = ();
+    fn handle_message(&mut self, _m: ()) {}
+    fn handle_measurement(&mut self, m: InternalMeasurement<()>) -> Option<()> {
+        CALLS.store(CALLS.load(Relaxed).saturating_add(1), Relaxed);
+        OFFSET.store(raw(m.offset), Relaxed);
+        LOCALTIME.store(u64::from_be_bytes(m.localtime.to_bits()), Relaxed);
+        None
+    }
+    fn desired_poll_interval(&self) -> PollInterval {
+        PollInterval::default()
+    }
+    fn observe(&self) -> ObservableSourceTimedata {
+        ObservableSourceTimedata::default()
+    }
+}
+
+fn meas(sender_id: ClockId, receiver_id: ClockId, s: u64, r: u64) -> Measurement {
+    Measurement {
+        sender_id,
+        receiver_id,
+        sender_ts: ts(s),
+        receiver_ts: ts(r),
+        root_delay: NtpDuration::ZERO,
+        root_dispersion: NtpDuration::ZERO,
+        leap: NtpLeapIndicator::NoWarning,
+        precision: kani::any(),
+    }
+}
+
+/// post (from the statement): with era-extended true times T1..T4 whose used differences fit i64,
+/// offset == ((T2-T1)+(T3-T4))/2 (truncating; the sum saturated if it does not fit) and
+/// delay == (T4-T1)-(T3-T2) (saturated if it does not fit); the filter's local time is T4.
+#[kani::proof]
+#[kani::unwind(4)]
+fn c05_p_two_way_on_wire_formulas() {
+    let (tx, _rx) = crate::verif_common::chan::unbounded_channel();
+    let mut w = TwoWaySourceControllerWrapper {
+        id: ClockId(1),
+        inner: Arc::new(Mutex::new(RecTwoWay)),
+        last_outgoing_measurement: None,
+        messages_for_system: tx,
+    };
+    let m: i128 = 1i128 << 64;
+    // true (era-extended) times, units of 2^-32 s
+    let t1: i128 = kani::any::<u64>() as i128;
+    let d21: i64 = kani::any(); // T2 - T1
+    let d32: i64 = kani::any(); // T3 - T2
+    let d41: i64 = kani::any(); // T4 - T1
+    let t2 = t1 + d21 as i128;
+    let t3 = t2 + d32 as i128;
+    let t4 = t1 + d41 as i128;
+    let d34 = t3 - t4; // T3 - T4
+    kani::assume(d34 >= i64::MIN as i128 && d34 <= i64::MAX as i128);
+    let w64 = |t: i128| t.rem_euclid(m) as u64;
+    // outgoing: sent at T1 (local), received by the server at T2
+    w.handle_measurement(meas(ClockId::SYSTEM, ClockId(1), w64(t1), w64(t2)));
+    assert!(CALLS.load(Relaxed) == 0);
+    // incoming: sent by the server at T3, received locally at T4
+    w.handle_measurement(meas(ClockId(1), ClockId::SYSTEM, w64(t3), w64(t4)));
+    assert!(CALLS.load(Relaxed) == 1);
+    let want_offset = clamp(d21 as i128 + d34).saturating_div(2);
+    let want_delay = clamp(d41 as i128 - d32 as i128);
+    assert!(OFFSET.load(Relaxed) == want_offset);
+    assert!(DELAY.load(Relaxed) == want_delay);
+    assert!(LOCALTIME.load(Relaxed) == w64(t4));
+    // each request yields at most one measurement: a second answer finds no pending request
+    w.handle_measurement(meas(ClockId(1), ClockId::SYSTEM, w64(t3), w64(t4)));
+    assert!(CALLS.load(Relaxed) == 1);
+    kani::cover!(t2 >= m && t1 < m, "era boundary between T1 and T2 reachable");
+    kani::cover!(want_offset < 0 && want_delay > 0, "typical case reachable");
+    core::mem::forget(w);
+}
+
+/// one-way sources: offset == remote (sender) time - local (receiver) time, across eras.
+#[kani::proof]
+#[kani::unwind(4)]
+fn c05_p_one_way_offset() {
+    let (tx, _rx) = crate::verif_common::chan::unbounded_channel();
+    let mut w = OneWaySourceControllerWrapper {
+        id: ClockId(1),
+        inner: Arc::new(Mutex::new(RecOneWay)),
+        messages_for_system: tx,
+    };
+    let m: i128 = 1i128 << 64;
+    let local: i128 = kani::any::<u64>() as i128;
+    let d: i64 = kani::any(); // remote - local (true difference, representable)
+    let remote = local + d as i128;
+    w.handle_measurement(meas(ClockId(1), ClockId::SYSTEM, remote.rem_euclid(m) as u64, local as u64));
+    assert!(CALLS.load(Relaxed) == 1);
+    assert!(OFFSET.load(Relaxed) == d);
+    assert!(LOCALTIME.load(Relaxed) == local as u64);
+    kani::cover!(remote >= m, "era boundary reachable");
+    core::mem::forget(w);
+}
+
+#[kani::proof]
+#[kani::unwind(4)]
+fn c05_canary_offset_sign_flipped() {
+    let (tx, _rx) = crate::verif_common::chan::unbounded_channel();
+    let mut w = OneWaySourceControllerWrapper {
+        id: ClockId(1),
+        inner: Arc::new(Mutex::new(RecOneWay)),
+        messages_for_system: tx,
+    };
+    let a: u64 = kani::any();
+    let b: u64 = kani::any();
+    w.handle_measurement(meas(ClockId(1), ClockId::SYSTEM, a, b));
+    assert!(OFFSET.load(Relaxed) == b.wrapping_sub(a) as i64);
+    core::mem::forget(w);
+}
 
 #[cfg(all(kani, test))]
 mod replay {
